@@ -146,3 +146,24 @@ def writeFloat (fmt : Format) (feats : Features) (o : WOpts) (t : FTy) (bits : N
   else some (sign ++ render fmt feats o (layoutBits fmt o t mag))
 
 end LexVerif.Model.WriteBinary
+
+/-! ## literals of binary.rs / hex.rs (see `Model/Dragonbox.lean`, section "literals") -/
+namespace LexVerif.Model.WriteBinary
+
+/-- `debug_assert!(matches!(x, 2 | 4 | 8 | 16 | 32))`, `32 - 1 - (x | 1).leading_zeros()` -/
+def fastLog2Literals : List Nat := [2, 4, 8, 16, 32, 32, 1, 1]
+def fastCeildivLiterals : List Nat := [0, 1]
+def inverseRemainderLiterals : List Nat := [0, 0, 0]
+def calculateShlLiterals : List Nat := [0]
+def scaleSciExpLiterals : List Nat := [0]
+def hexScaleSciExpLiterals : List Nat := [0]
+/-- `exp + mantissa_bits as i32 - 1`, `sci_exp = 0` -/
+def writeFloatLiterals : List Nat := [1, 0]
+/-- the documented `(radix, base)` pairs of hex.rs' `debug_assert!`, then `- 1`, `= 0` -/
+def hexWriteFloatLiterals : List Nat := [4, 2, 8, 2, 16, 2, 32, 2, 16, 4, 1, 0]
+def writeFloatScientificLiterals : List Nat := [2, 1, 0, 1, 1, 2, 1, 1, 2, 1, 2, 1, 1]
+def writeFloatNegativeExponentLiterals : List Nat := [0, 2, 0, 1, 2, 1, 1]
+def writeFloatPositiveExponentLiterals : List Nat := [0, 1, 1, 1, 1, 1, 0, 1, 1]
+def truncateAndRoundLiterals : List Nat := [1]
+
+end LexVerif.Model.WriteBinary
